@@ -60,6 +60,25 @@ def build_harness(profile):
     return harness_bin(profile)
 
 
+def extract():
+    """translate: run the translator against /repo's current generator sources; regenerate
+    Soa/Extracted/*.lean and the generated proof scripts (files are rewritten only when changed)"""
+    with Lock():
+        lockfile = os.path.join(EXTRACT, "Cargo.lock")
+        if not os.path.exists(lockfile):
+            subprocess.run(["cp", os.path.join(REPO, "Cargo.lock"), lockfile], check=True)
+        rc, out, err = run(["cargo", "run", "--offline", "--quiet", "--", os.path.join(LEAN, "Soa", "Extracted")], cwd=EXTRACT)
+        if rc != 0:
+            raise BuildError(f"translator does not build/run against /repo:\n{err[-4000:]}")
+        from . import idxproofs
+        idxproofs.generate(LEAN)
+    h = hashlib.sha1()
+    d = os.path.join(LEAN, "Soa", "Extracted")
+    for f in sorted(os.listdir(d)):
+        h.update(open(os.path.join(d, f), "rb").read())
+    return h.hexdigest()[:12]
+
+
 def lake_build(targets):
     """lake build; returns (ok, log). The log of cached modules is replayed by lake."""
     with Lock():
@@ -202,9 +221,11 @@ def lean_deps(module, seen=None):
 
 
 def prove(prop_id, modules):
-    """build the property's theorem modules, audit axioms.  Returns dict with ok, obligations, discharged, failures[]"""
+    """translate, build the property's theorem modules, audit axioms.
+    Returns dict with ok, obligations, discharged, failures[]"""
     t0 = time.time()
     res = {"modules": modules, "obligations": 0, "discharged": 0, "failures": [], "axioms": {}, "theorems": []}
+    res["extraction_hash"] = extract()
     ok, blog = lake_build(modules + ["soa-model"])
     res["build_ok"] = ok
     if not ok:
@@ -214,6 +235,11 @@ def prove(prop_id, modules):
     names = []
     for m in modules:
         names += theorem_names(os.path.join(LEAN, m.replace(".", "/") + ".lean"))
+        # generated sub-modules of a property (Soa.Props.Cxx imports Soa.Props.CxxGen.*)
+        for l in open(os.path.join(LEAN, m.replace(".", "/") + ".lean")):
+            mm = re.match(r"\s*import\s+(Soa\.Props\.\w+Gen\.\w+)", l)
+            if mm:
+                names += [n for n in theorem_names(os.path.join(LEAN, mm.group(1).replace(".", "/") + ".lean")) if ".lit_" not in n]
     res["theorems"] = names
     res["obligations"] = len(names)
     deps = {}
